@@ -419,6 +419,8 @@ func runC04(c *Ctx) {
 	runC04Trailers(c)
 	// ---- C04.7
 	runC04StrictStatus(c)
+	// ---- C04.8
+	runC04NonZeroCode(c)
 
 	// ---- C04.5
 	c.Rule("C04.5", "the percent-encoding escape set and hex helpers are exactly the gRPC spec's", 4)
@@ -719,5 +721,117 @@ func runC04StrictStatus(c *Ctx) {
 	}
 	if n == 0 {
 		c.Bad("C04.7", "http", "status-body-parsed-strictly", token.NoPos, "no protojson parse of an error body into google.rpc.Status found: shape changed")
+	}
+}
+
+// runC04NonZeroCode: C04.8 (defect D35).  Code 0 is "OK": an error value with code 0 is rendered
+// as grpc-status 0 / HTTP 200.  Wherever an error is built from data a backend sent (a parsed
+// error body, a status proto, a parsed status header), the code handed to connect.NewError /
+// NewWireError is a non-zero constant, the HTTP->RPC mapping, or a value the path knows to be
+// non-zero.
+func runC04NonZeroCode(c *Ctx) {
+	p := c.P
+	c.Rule("C04.8", "an error built from a backend's failure data never gets code 0", 4)
+	mapFn := p.MustFunc("httpStatusCodeToRPC")
+	var nonZero func(v ssa.Value, at *ssa.BasicBlock, depth int) bool
+	nonZero = func(v ssa.Value, at *ssa.BasicBlock, depth int) bool {
+		if depth > 4 {
+			return false
+		}
+		v = strip(v)
+		if k, ok := ConstInt(v); ok {
+			return k != 0
+		}
+		if call, ok := v.(*ssa.Call); ok {
+			if call.Call.StaticCallee() == mapFn {
+				return true // the mapping yields OK only for 200, which the callers exclude
+			}
+		}
+		for _, f := range p.FactsAtInter(at) {
+			cmp, ok := f.AsCmp()
+			if !ok {
+				continue
+			}
+			k, isK := ConstInt(cmp.Y)
+			if !isK || k != 0 {
+				continue
+			}
+			if !(sameQuantity(cmp.X, v) || strip(cmp.X) == v) {
+				continue
+			}
+			if cmp.Op == token.NEQ || cmp.Op == token.GTR {
+				return true
+			}
+		}
+		if ph, ok := v.(*ssa.Phi); ok {
+			for i, e := range ph.Edges {
+				if i >= len(ph.Block().Preds) || !nonZero(e, ph.Block().Preds[i], depth+1) {
+					// the edge may carry the fact itself (if x == 0 { x = other })
+					okEdge := false
+					for _, f := range FactsOnEdge(ph.Block().Preds[i], ph.Block()) {
+						if cmp, ok := f.AsCmp(); ok && (cmp.Op == token.NEQ || cmp.Op == token.GTR) {
+							if k, isK := ConstInt(cmp.Y); isK && k == 0 && (sameQuantity(cmp.X, e) || strip(cmp.X) == strip(e)) {
+								okEdge = true
+							}
+						}
+					}
+					if !okEdge {
+						return false
+					}
+				}
+			}
+			return len(ph.Edges) > 0
+		}
+		return false
+	}
+	// scope: everything reachable from the server protocols' response interpretation
+	sph := p.Iface("serverProtocolHandler")
+	scope := map[*ssa.Function]bool{}
+	for _, t := range p.Implementers(sph) {
+		for _, mn := range []string{"extractProtocolResponseHeaders", "extractEndFromTrailers", "decodeEndFromMessage"} {
+			if m := p.MethodOf(t, mn); m != nil {
+				for fn := range p.Reach(m) {
+					if p.inScope(fn) {
+						scope[fn] = true
+					}
+				}
+				// closures created there (body unmarshallers)
+				for _, fn := range p.Funcs {
+					top := fn
+					for top.Parent() != nil {
+						top = top.Parent()
+					}
+					if top == m {
+						scope[fn] = true
+						for f2 := range p.Reach(fn) {
+							if p.inScope(f2) {
+								scope[f2] = true
+							}
+						}
+					}
+				}
+			}
+		}
+	}
+	n := 0
+	for _, fn := range SortedFuncs(scope) {
+		for _, call := range Calls(fn) {
+			if !IsCallTo(call, "connectrpc.com/connect.NewError", "connectrpc.com/connect.NewWireError") {
+				continue
+			}
+			code := call.Common().Args[0]
+			if _, isConst := strip(code).(*ssa.Const); isConst {
+				if k, _ := ConstInt(strip(code)); k != 0 {
+					continue // a fixed, non-zero code
+				}
+			}
+			n++
+			c.Check(nonZero(code, call.Block(), 0), "C04.8", FuncName(fn), "error-code-non-zero", call.Pos(),
+				"the code is the HTTP->RPC mapping, or a parsed value the path knows to be non-zero",
+				"an error is built from a backend's failure data with a code that may be 0 (a body or status that parses but names no code): code 0 is rendered as grpc-status 0 / HTTP 200 and the client sees success")
+		}
+	}
+	if n == 0 {
+		c.Bad("C04.8", "server-protocols", "error-code-non-zero", token.NoPos, "no error is built from parsed backend data: shape changed")
 	}
 }
